@@ -198,6 +198,12 @@ POOL = [
     ("null",), ("new", "int[2]", [1, 5]), ("new", "struct s3 *", [3, 4.5]),
     ("deref", "struct s1 *", [7]), ("deref", "struct s3 *", [1, 2.0]),
     ("obj", "int", 7), ("obj", "index", 7), ("obj", "float", 2.5),
+    # cdata of the remaining primitive kinds and of the other cdata object types (CData_Check is a fixed list)
+    ("cast", "long double", 2.5), ("cast", "char16_t", "A"), ("cast", "char32_t", "\U0010ffff"), ("cast", "enum e1", 1),
+    ("cast", "float _Complex", 1 + 0j), ("gc", "int[2]", [1, 5]), ("gc", "struct s3 *", [3, 4.5]),
+    ("callback", "int(*)(int)"),
+    # (no ffi.new_handle() object here: it converts to every pointer parameter and the C side would then read or
+    #  call the memory of a Python object)
 ]
 
 S4_FULL = (1, b"abcde", 2.5, -3, 4, (5,))
@@ -251,7 +257,8 @@ SPECIFIC = {
            ("py", ["a", "b", "\x00"]), ("py", ("W", "c", "\x00")), ("py", ["a", 5]), ("py", [b"a"]),
            ("void", "wchar_t[]", "Wv"), ("new", "int[2]", [87, 0]), ("new", "char32_t[]", "Wx"),
            ("py", "x" * 127), ("py", "x" * 128), ("py", "y" * 159), ("py", "y" * 160)],
-    "fp": [("libfn", "c13_g1"), ("libfn", "c13_g2"), ("cast", "int(*)(int)", 0), ("cast", "void *", 0),
+    "fp": [("libfn", "c13_g1"), ("libfn", "c13_g2"), ("callback", "int(*)(int)"),
+           ("callback", "long long(*)(struct s3, double)"), ("cast", "int(*)(int)", 0), ("cast", "void *", 0),
            ("cast", "long long(*)(struct s3, double)", 0), ("py", 5), ("pyfn",), ("new", "int[2]", [1, 5])],
     "struct s1": [("deref", "struct s1 *", [200]), ("py", (200,)), ("py", {"a": 0}), ("py", [255]), ("py", (256,)),
                   ("py", (-1,)), ("py", ("x",)), ("py", (1, 2)), ("py", ()), ("py", {}), ("py", {"b": 1})],
@@ -347,13 +354,25 @@ def label_of(spec, t):
         return "cdata:" + spec[1]
     if k == "null":
         return "cdata:NULL"
-    if k in ("new", "void", "elem", "frombuf", "deref"):
+    if k in ("new", "void", "elem", "frombuf", "deref", "gc", "callback"):
         return "%s:%s" % (k, spec[1])
     if k == "obj":
         return "obj:__%s__" % spec[1]
     if k == "libfn":
         return "libfn:" + spec[1]
     return k
+
+
+def _no_destructor(p):
+    pass
+
+
+def _cb_int(x):
+    return (x * 2 + 1) & 0x7fffffff
+
+
+def _cb_s3(s, d):
+    return int(s.a) * 3 + int(d)
 
 
 class _WithInt(object):
@@ -416,6 +435,18 @@ def realize(spec, ffi, keep, getfn=None):
         ba = bytearray(spec[2])
         o = ffi.from_buffer(spec[1], ba)
         keep.append((o, ba))
+        return o
+    if k == "gc":
+        o = ffi.gc(ffi.new(spec[1], spec[2]), _no_destructor)
+        keep.append((o, None))
+        return o
+    if k == "handle":
+        o = ffi.new_handle(_a_python_function)
+        keep.append((o, b""))            # kept alive, no memory image to compare
+        return o
+    if k == "callback":
+        o = ffi.callback(spec[1], _cb_int if spec[1].startswith("int") else _cb_s3)
+        keep.append((o, b""))
         return o
     if k == "obj":
         return {"int": _WithInt, "index": _WithIndex, "float": _WithFloat}[spec[1]](spec[2])
@@ -552,7 +583,11 @@ class Lib(object):
                 return ("ptr", t.cname, "static+%d" % (addr - self.static))
             for i, (o, _ba) in enumerate(keep):
                 base = int(ffi.cast("uintptr_t", o))
-                if base <= addr <= base + len(ffi.buffer(o)):
+                try:
+                    size = len(ffi.buffer(o))
+                except TypeError:
+                    size = 0                     # handle / callback: only the address itself is the caller's
+                if base <= addr <= base + size:
                     return ("ptr", t.cname, "arg%d+%d" % (i, addr - base))
             return ("ptr", t.cname, "not-caller-owned")      # a temporary built by the path itself
         if t.kind in ("struct", "array"):
